@@ -11,6 +11,12 @@ use crate::util::Ch;
 /// function is off by orders of magnitude already at n = 25.
 pub const MAX_CALLS_PER_TOKEN: f64 = 250.0;
 
+/// Upper bound on calls of the passes over the parsed term (re-association x 3, variable
+/// resolution, definition-order check) per token. Each pass visits a node a bounded number of
+/// times; calibrated like the bound above (largest observed ratio: see the evidence class
+/// "pass calls per token").
+pub const MAX_PASS_CALLS_PER_TOKEN: f64 = 40.0;
+
 fn thread_cpu_seconds() -> f64 {
     let mut ts = libc::timespec { tv_sec: 0, tv_nsec: 0 };
     // SAFETY: plain syscall writing into a local struct.
@@ -23,6 +29,8 @@ fn thread_cpu_seconds() -> f64 {
 pub struct Measure {
     pub tokens: usize,
     pub calls: u64,
+    /// Calls of the passes that run over the parsed term (second hook counter).
+    pub pass_calls: u64,
     pub cpu_s: f64,
     pub ok: bool,
 }
@@ -33,17 +41,19 @@ pub fn measure(text: &str) -> Result<Measure, String> {
         let t0 = thread_cpu_seconds();
         let toks = match crate::tokenizer::tokenize(None, text) {
             Ok(t) => t,
-            Err(_) => return Measure { tokens: 0, calls: 0, cpu_s: 0.0, ok: false },
+            Err(_) => return Measure { tokens: 0, calls: 0, pass_calls: 0, cpu_s: 0.0, ok: false },
         };
         let before = crate::parser::VERIF_PARSE_CALLS.with(std::cell::Cell::get);
+        let pass_before = crate::parser::VERIF_PASS_CALLS.with(std::cell::Cell::get);
         let r = crate::parser::parse(None, text, &toks, &[]);
         let after = crate::parser::VERIF_PARSE_CALLS.with(std::cell::Cell::get);
+        let pass_after = crate::parser::VERIF_PASS_CALLS.with(std::cell::Cell::get);
         // Render the diagnostics too, as the CLI would.
         if let Err(e) = &r {
             let _n: usize = e.iter().map(|x| x.message.len()).sum();
         }
         let t1 = thread_cpu_seconds();
-        Measure { tokens: toks.len(), calls: after - before, cpu_s: t1 - t0, ok: r.is_ok() }
+        Measure { tokens: toks.len(), calls: after - before, pass_calls: pass_after - pass_before, cpu_s: t1 - t0, ok: r.is_ok() }
     })
 }
 
@@ -53,7 +63,7 @@ fn rep(s: &str, n: usize) -> String {
     s.repeat(n)
 }
 
-pub const FAMILIES: [Family; 25] = [
+pub const FAMILIES: [Family; 31] = [
     ("nested parentheses", |n| format!("{}1{}", rep("(", n), rep(")", n))),
     ("nested pi domains", |n| {
         let mut s = String::new();
@@ -162,6 +172,14 @@ pub const FAMILIES: [Family; 25] = [
         s.push('r');
         s
     }),
+    // Groups nested in each position of an operator / application chain: the passes that run
+    // over the parsed term (re-association above all) recurse through these.
+    ("application with a grouped middle argument, nested", |n| format!("f => {}f 1 2{}", rep("f (", n), rep(") 2", n))),
+    ("application with a grouped head, nested", |n| format!("f => {}f 1{}", rep("(", n), rep(") 2", n))),
+    ("application with a grouped last argument, nested", |n| format!("f => {}f 2 1{}", rep("f 2 (", n), rep(")", n))),
+    ("product with a grouped middle operand, nested", |n| format!("{}1 * 2 / 3{}", rep("1 * (", n), rep(") / 3", n))),
+    ("sum with a grouped middle operand, nested", |n| format!("{}1 + 2 - 3{}", rep("1 - (", n), rep(") + 3", n))),
+    ("application, product and sum nested through groups", |n| format!("f => {}f 2 3{}", rep("f (1 * (2 + (", n / 3 + 1), rep(") - 4) / 5) 6", n / 3 + 1))),
     ("one long literal", |n| rep("7", n * 8)),
     ("one long identifier", |n| format!("({} => 1)", rep("ab", n * 4))),
 ];
@@ -226,6 +244,15 @@ fn run_family(ctx: &Ctx, fam: usize, variant: usize, max_n: usize) {
             )));
             return;
         }
+        let pass_per_token = m.pass_calls as f64 / m.tokens as f64;
+        if pass_per_token > MAX_PASS_CALLS_PER_TOKEN {
+            ctx.settle(Err(Failure::new(
+                format!("{} calls of the passes over the parsed term for {} tokens ({pass_per_token:.0} per token; the bound is {MAX_PASS_CALLS_PER_TOKEN})", m.pass_calls, m.tokens),
+                label,
+            )));
+            return;
+        }
+        ctx.class(&format!("pass calls per token in [{}, {})", (pass_per_token / 5.0).floor() * 5.0, (pass_per_token / 5.0).floor() * 5.0 + 5.0));
         if let Some((pn, pm)) = &prev {
             // Linear work means a bounded number of calls per token. The constant depends on where
             // a damage happens to fall, so a single jump is tolerated; super-linear growth shows
@@ -288,7 +315,12 @@ fn random_case(ctx: &Ctx, ch: &mut Ch) -> Outcome {
     if per_token > MAX_CALLS_PER_TOKEN {
         return Err(Failure::new(format!("{} calls for {} tokens ({per_token:.0} per token; the bound is {MAX_CALLS_PER_TOKEN})", m.calls, m.tokens), text));
     }
+    let pass_per_token = m.pass_calls as f64 / m.tokens as f64;
+    if pass_per_token > MAX_PASS_CALLS_PER_TOKEN {
+        return Err(Failure::new(format!("{} calls of the passes over the parsed term for {} tokens ({pass_per_token:.0} per token; the bound is {MAX_PASS_CALLS_PER_TOKEN})", m.pass_calls, m.tokens), text));
+    }
     ctx.class(&format!("calls per token in [{}, {})", (per_token / 10.0).floor() * 10.0, (per_token / 10.0).floor() * 10.0 + 10.0));
+    ctx.class(&format!("pass calls per token in [{}, {})", (pass_per_token / 5.0).floor() * 5.0, (pass_per_token / 5.0).floor() * 5.0 + 5.0));
     if m.tokens >= 100 {
         ctx.nontrivial(&text);
     }
@@ -301,7 +333,7 @@ pub fn def(tier: Tier) -> CheckDef {
     CheckDef {
         id: "C17",
         level: "exploration",
-        rule: "25 input families parameterised by n (nested parentheses, binder-looking prefixes, operator / application / arrow / negation chains, nested lambdas of three kinds, nested conditionals in each position, definition sequences, definitions sharing dependencies (the definition-order check walks them), nested groups, long tokens) x 5 variants (well-formed, second half dropped, closing brackets dropped, operator doubled, stray closing bracket), n doubling from 6 to 1536 (quick) / 6144 (thorough), plus proptest-generated random compositions with the same damages; oracle = the number of parsing-function calls (hook counter in cache_check!, hit or miss) stays below 250 per token and the per-token rate does not rise by more than 1.3x on two successive doublings for n >= 100; CPU time growing more than 12x on two successive doublings is also a violation; a hang is caught by the watchdog and attributed to the announced (family, variant, n); non-trivial = a (family, variant, n) triple with n >= 100 or a random composition of >= 100 tokens; distinct by label / text",
+        rule: "31 input families parameterised by n (nested parentheses, groups nested in the head / middle / last position of application, product and sum chains, binder-looking prefixes, operator / application / arrow / negation chains, nested lambdas of three kinds, nested conditionals in each position, definition sequences, definitions sharing dependencies (the definition-order check walks them), nested groups, long tokens) x 5 variants (well-formed, second half dropped, closing brackets dropped, operator doubled, stray closing bracket), n doubling from 6 to 1536 (quick) / 6144 (thorough), plus proptest-generated random compositions with the same damages; oracle = the number of parsing-function calls (hook counter in cache_check!, hit or miss) stays below 250 per token, the number of calls of the passes that run over the parsed term afterwards (second hook counter: re-association, variable resolution, definition-order check) stays below 40 per token (about 4x the largest ratio observed on the pinned tree), and the per-token rate of parsing calls does not rise by more than 1.3x on two successive doublings for n >= 100; CPU time growing more than 12x on two successive doublings is also a violation; a hang is caught by the watchdog and attributed to the announced (family, variant, n); non-trivial = a (family, variant, n) triple with n >= 100 or a random composition of >= 100 tokens; distinct by label / text",
         assumptions: vec![
             "work is measured by the hook counter (deterministic), CPU time only as a coarse second gate",
             "the constant 250 calls per token was calibrated on the pinned tree as about 4x the largest observed ratio",
